@@ -46,10 +46,11 @@ func main() {
 	}
 }
 
-const tieRule = "every discovered Get/Update/Pull triple of every server row x random sessions (full Get; then Update with random payload/extras/update mask, " +
-	"Get with random read mask, open Pull with random read mask and updates_only (at most 2 open), cancel) through WrapApi(router(WrapApi(server))); " +
-	"the observation trace is fed to the Lean register-server model run as an acceptor (driverC14) and its verdict per observation is compared with the " +
-	"independent Go monitor's; non-trivial = a session with more than 6 observations; distinct = distinct (triple, session)"
+const tieRule = "every discovered Get/Update/Pull triple, Get/Pull pair and keyed triple of every server row, through WrapApi(router(WrapApi(server))): " +
+	"random register sessions (full Get; Update with random payload/extras/update mask or a model-level write for pairs; Get with nested read masks; Pull with read mask and updates_only, " +
+	"at most 2 open; cancel), keyed sessions (Create/Update/Get/Pull/Delete over up to 3 ids plus ids that do not exist), update-while-subscribing sessions (gap: deterministic through the " +
+	"beforeListen yield point; race: by timing) and tween sessions (servers with a Tween field); the observation trace is fed to the Lean register-server model run as an acceptor " +
+	"(driverC14) and its verdict per observation is compared with the independent Go monitor's; non-trivial = a session with more than 6 observations; distinct = distinct (triple, kind, session)"
 
 const monRule = "the five statements of the property evaluated directly on the observations with proto.Equal and an own projection: Update response = next unmasked Get; " +
 	"masked Get = projection; Pull seed = current value unless updates_only; every value-changing successful Update appears on every open stream with the " +
@@ -62,6 +63,61 @@ func stepsOf(q int) int {
 		return 3 + 2*q // small sessions first
 	}
 	return 14
+}
+
+// unconfirmedLog keeps the first few failures that did not reproduce (reported in the evidence, not as violations).
+var unconfirmedLog []any
+
+type sessionFn func(t triple, sid sessionID, mon *lib.Monitor) (lines, verdicts []string)
+
+var sessionKinds = map[string]sessionFn{
+	"triple": runSession, "tween": runTweenSession, "race": runRaceSession, "gap": runGapSession, "keyed": runKeyedSession,
+}
+
+// runConfirmed runs one session against a scratch monitor. Every verdict of the stack involves time somewhere
+// (a message "did not arrive within 1 s", a stale write "happened by the deadline"), so a failing session is
+// SELF-CONFIRMING: it is re-run 3 times on fresh servers and reported only if at least 2 re-runs fail with the
+// same signature. An unconfirmed failure is counted (distribution `unconfirmed:<signature>`) and the session is void.
+func runConfirmed(t triple, sid sessionID, mon *lib.Monitor) (lines, verdicts []string) {
+	run := sessionKinds[sid.Kind]
+	scratch := lib.NewMonitor("scratch", "")
+	lines, verdicts = run(t, sid, scratch)
+	merge := func(m *lib.Monitor) {
+		mon.Evaluations += m.Evaluations
+		mon.Distinct += m.Distinct
+		for k, v := range m.Distribution {
+			mon.Distribution[k] += v
+		}
+	}
+	if len(scratch.Violations) == 0 {
+		merge(scratch)
+		return lines, verdicts
+	}
+	sig := scratch.Violations[0].Signature
+	confirmed := 0
+	for i := 0; i < 3; i++ {
+		again := lib.NewMonitor("scratch", "")
+		run(t, sid, again)
+		for _, v := range again.Violations {
+			if v.Signature == sig {
+				confirmed++
+				break
+			}
+		}
+	}
+	if confirmed < 2 {
+		mon.Count("unconfirmed:" + sig)
+		if len(unconfirmedLog) < 5 {
+			v := scratch.Violations[0]
+			unconfirmedLog = append(unconfirmedLog, map[string]any{"signature": sig, "reruns_failing": confirmed, "input": v.Input, "expected": v.Expected, "observed": v.Observed})
+		}
+		return nil, nil
+	}
+	merge(scratch)
+	for _, v := range scratch.Violations {
+		mon.Violate(v.Signature, v.What+fmt.Sprintf(" (confirmed: %d of 3 re-runs on fresh servers failed the same way)", confirmed), v.Input, v.Expected, v.Observed)
+	}
+	return lines, verdicts
 }
 
 // runChildSide runs every session of one triple (in a child process).
@@ -79,97 +135,67 @@ func runChildSide(f lib.Flags, res *lib.Result, key string) {
 		return
 	}
 	defer drv.Close()
+	failed := false
+	exec := func(t triple, sid sessionID) {
+		if failed {
+			return
+		}
+		lines, verdicts := runConfirmed(t, sid, mon)
+		mon.Count(sid.Kind + ":" + t.key())
+		if lines == nil {
+			return
+		}
+		model, err := drv.Batch(lines)
+		if err != nil {
+			tie.Fail(err)
+			failed = true
+			return
+		}
+		in := map[string]any{"kind": sid.Kind, "triple": sid.Triple, "seed": sid.Seed, "seq": sid.Seq, "steps": sid.Steps}
+		k := sid.Triple + "/" + sid.Kind + fmt.Sprint(sid.Seq)
+		for i := range lines {
+			if model[i] != verdicts[i] {
+				in["line"] = lines[i]
+				in["lines"] = lines[:i+1]
+				tie.Record(k, true, in, model[i], verdicts[i])
+				return
+			}
+		}
+		tie.Record(k, len(lines) > 6, in, "accepted:"+last(model), "accepted:"+last(verdicts))
+	}
 	for _, t := range triples {
 		if t.key() != key {
 			continue
 		}
+		if t.keyField != "" {
+			// a keyed family of registers (collection items addressed by an id in the request)
+			for q := 0; q < sessionsOf(f); q++ {
+				exec(t, sessionID{Kind: "keyed", Triple: t.key(), Seed: f.Seed, Seq: q, Steps: stepsOf(q) + 4})
+			}
+			continue
+		}
 		for q := 0; q < sessionsOf(f); q++ {
-			sid := sessionID{Kind: "triple", Triple: t.key(), Seed: f.Seed, Seq: q, Steps: stepsOf(q)}
-			lines, verdicts := runSession(t, sid, mon)
-			mon.Count("triple:" + t.key())
-			model, err := drv.Batch(lines)
-			if err != nil {
-				tie.Fail(err)
-				return
-			}
-			in := map[string]any{"kind": "triple", "triple": sid.Triple, "seed": sid.Seed, "seq": sid.Seq, "steps": sid.Steps}
-			ok := true
-			for i := range lines {
-				if model[i] != verdicts[i] {
-					in["line"] = lines[i]
-					in["lines"] = lines[:i+1]
-					tie.Record(sid.Triple+fmt.Sprint(sid.Seq), true, in, model[i], verdicts[i])
-					ok = false
-					break
-				}
-			}
-			if ok {
-				tie.Record(sid.Triple+fmt.Sprint(sid.Seq), len(lines) > 6, in, "accepted:"+last(model), "accepted:"+last(verdicts))
-			}
+			exec(t, sessionID{Kind: "triple", Triple: t.key(), Seed: f.Seed, Seq: q, Steps: stepsOf(q)})
 		}
 		// update-while-subscribing scenarios on every triple with an Update RPC: "gap" deterministic through the
 		// yield point before the listener is registered, "race" by timing only
 		if t.update != nil {
-			for _, fam := range []struct {
-				kind    string
-				n, step int
-			}{{"gap", f.N(1, 6), f.N(8, 20)}, {"race", f.N(1, 20), f.N(10, 25)}} {
-				for q := 0; q < fam.n; q++ {
-					sid := sessionID{Kind: fam.kind, Triple: t.key(), Seed: f.Seed, Seq: q, Steps: fam.step}
-					run := runRaceSession
-					if fam.kind == "gap" {
-						run = runGapSession
-					}
-					lines, verdicts := run(t, sid, mon)
-					model, err := drv.Batch(lines)
-					if err != nil {
-						tie.Fail(err)
-						return
-					}
-					in := map[string]any{"kind": fam.kind, "triple": sid.Triple, "seed": sid.Seed, "seq": sid.Seq, "steps": sid.Steps}
-					ok := true
-					for i := range lines {
-						if model[i] != verdicts[i] {
-							in["line"] = lines[i]
-							in["lines"] = lines[:i+1]
-							tie.Record(sid.Triple+"/"+fam.kind+fmt.Sprint(sid.Seq), true, in, model[i], verdicts[i])
-							ok = false
-							break
-						}
-					}
-					if ok {
-						tie.Record(sid.Triple+"/"+fam.kind+fmt.Sprint(sid.Seq), true, in, "accepted:"+last(model), "accepted:"+last(verdicts))
-					}
-				}
+			for q := 0; q < f.N(1, 6); q++ {
+				exec(t, sessionID{Kind: "gap", Triple: t.key(), Seed: f.Seed, Seq: q, Steps: f.N(8, 20)})
+			}
+			for q := 0; q < f.N(1, 20); q++ {
+				exec(t, sessionID{Kind: "race", Triple: t.key(), Seed: f.Seed, Seq: q, Steps: f.N(10, 25)})
 			}
 		}
 		// servers whose Update can start background writes (a Tween field in the resource): tween scenarios
 		if t.update != nil && tweenField(t.resource) != nil {
 			for q := 0; q < f.N(8, 60); q++ {
-				sid := sessionID{Kind: "tween", Triple: t.key(), Seed: f.Seed, Seq: q, Steps: 4}
-				lines, verdicts := runTweenSession(t, sid, mon)
-				mon.Count("tween-sessions:" + t.key())
-				model, err := drv.Batch(lines)
-				if err != nil {
-					tie.Fail(err)
-					return
-				}
-				in := map[string]any{"kind": "tween", "triple": sid.Triple, "seed": sid.Seed, "seq": sid.Seq, "steps": sid.Steps}
-				ok := true
-				for i := range lines {
-					if model[i] != verdicts[i] {
-						in["line"] = lines[i]
-						in["lines"] = lines[:i+1]
-						tie.Record(sid.Triple+"/tween"+fmt.Sprint(sid.Seq), true, in, model[i], verdicts[i])
-						ok = false
-						break
-					}
-				}
-				if ok {
-					tie.Record(sid.Triple+"/tween"+fmt.Sprint(sid.Seq), true, in, "accepted:"+last(model), "accepted:"+last(verdicts))
-				}
+				exec(t, sessionID{Kind: "tween", Triple: t.key(), Seed: f.Seed, Seq: q, Steps: 4})
 			}
 		}
+	}
+	if len(unconfirmedLog) > 0 {
+		res.Extra["unconfirmed"] = unconfirmedLog
 	}
 }
 
@@ -262,6 +288,7 @@ func run(f lib.Flags, res *lib.Result) {
 	}
 	wg.Wait()
 	var tnames []string
+	var allUnconfirmed []any
 	for i, t := range triples {
 		tnames = append(tnames, t.key())
 		o := outs[i]
@@ -303,6 +330,9 @@ func run(f lib.Flags, res *lib.Result) {
 				tie.Error = ct.Error
 			}
 		}
+		if u, ok := o.r.Extra["unconfirmed"].([]any); ok {
+			allUnconfirmed = append(allUnconfirmed, u...)
+		}
 		for _, cm := range o.r.Monitors {
 			mon.Evaluations += cm.Evaluations
 			mon.Distinct += cm.Distinct
@@ -320,6 +350,10 @@ func run(f lib.Flags, res *lib.Result) {
 		tie.Distribution[k] = v
 	}
 	res.Extra["triples"] = tnames
+	if len(allUnconfirmed) > 8 {
+		allUnconfirmed = allUnconfirmed[:8]
+	}
+	res.Extra["unconfirmed_failures"] = allUnconfirmed
 	res.Extra["services"] = services
 	var none []string
 	for _, row := range stackTable {
@@ -354,7 +388,7 @@ func replay(f lib.Flags) int {
 	}
 	b, _ := json.Marshal(in)
 	var sid sessionID
-	if err := json.Unmarshal(b, &sid); err != nil || (sid.Kind != "triple" && sid.Kind != "tween" && sid.Kind != "race" && sid.Kind != "gap") {
+	if err := json.Unmarshal(b, &sid); err != nil || sessionKinds[sid.Kind] == nil {
 		fmt.Println("replay: unknown input", string(b))
 		return 2
 	}
@@ -382,16 +416,7 @@ func replay(f lib.Flags) int {
 	for _, t := range triples {
 		if t.key() == sid.Triple {
 			found = true
-			run := runSession
-			if sid.Kind == "tween" {
-				run = runTweenSession
-			}
-			if sid.Kind == "race" {
-				run = runRaceSession
-			}
-			if sid.Kind == "gap" {
-				run = runGapSession
-			}
+			run := sessionKinds[sid.Kind]
 			lines, _ := run(t, sid, m)
 			fmt.Printf("replay %s seq=%d seed=%d: %d observations\n  %s\n", sid.Triple, sid.Seq, sid.Seed, len(lines), strings.Join(lines, "\n  "))
 		}
